@@ -20,9 +20,9 @@ Begin == /\ Is("begin")
          /\ st' = EmptyState /\ bad' = {} /\ l' = l + 1
 
 \* defaults for optional declaration fields
-Norm(d) == [k \in DOMAIN d \cup {"tags", "attrs", "pos", "long", "params", "q", "pk", "text"} |->
+Norm(d) == [k \in DOMAIN d \cup {"tags", "attrs", "pos", "long", "params", "q", "pk", "text", "arr", "val"} |->
               IF k \in DOMAIN d THEN d[k]
-              ELSE IF k \in {"tags", "attrs", "params", "q"} THEN <<>>
+              ELSE IF k \in {"tags", "attrs", "params", "q", "arr"} THEN <<>>
               ELSE IF k = "pos" THEN [file |-> "", line |-> 0, col |-> 0]
               ELSE IF k = "pk" THEN FALSE ELSE ""]
 
@@ -58,9 +58,11 @@ State ==
 \* C08: every location-bearing element the specification tracks records, per declaration and in
 \* declaration order, the file and the zero-based position of its first character
 Tracked == {"app", "type", "field", "ep", "stmt"}
+\* annotations written as statements of an application (`@note = ...`); attributes written in brackets are not tracked
+TrackedAnnos == {"note"}
 Locs ==
   /\ Is("locs")
-  /\ LET got == {f \in FactSet(Ev.facts) : f[1] = "loc" /\ f[2] \in Tracked}
+  /\ LET got == {f \in FactSet(Ev.facts) : f[1] = "loc" /\ (f[2] \in Tracked \/ (f[2] = "app.attr" /\ f[4] \in TrackedAnnos))}
          ebs == {f \in FactSet(Ev.facts) : f[1] = "loc.endbeforestart"}
          want == LocFacts(st)
          missing == want \ got
